@@ -131,6 +131,17 @@ pub fn dispatch(op: &str, a: &[&str]) -> Option<Ans> {
                 (res(&r).into(), rc(s).into())
             }
         }
+        // poly1305_objverify <key> <tag of ANY length> <chunk>… : the streaming object verifier with a Vec<u8> tag container
+        // (ByteArray<16> for Vec<u8> views the first 16 bytes and asserts len ≥ 16: a shorter tag is a caller-contract panic)
+        "poly1305_objverify" => {
+            use dryoc::onetimeauth::OnetimeAuth;
+            let key: [u8; 32] = arr(&b[0]);
+            let tag: Vec<u8> = b[1].clone();
+            let mut st = OnetimeAuth::new(key);
+            for c in &b[2..] { st.update(c); }
+            let r = st.verify(&tag);
+            (res(&r).into(), "n/a".into())
+        }
         "auth" => {
             let key: [u8; 32] = arr(&b[0]);
             let mut mac = [0xA5u8; 32];
